@@ -9,6 +9,8 @@ from pbt.runner import Outcome
 
 ID = "C05"
 MIN_NONTRIVIAL = 0.4
+RULE_EXTRA = (" Round e-g additions: channel pools up to 15, silent (velocity 0) notes, SEQUENCE_CONTROL noise, far tick shifts, "
+              "self-concatenated inputs, and histories in which the object was quantised before with another step list.")
 RULE = ("Hypothesis: well-formed notes on 2 channels over 3-4 pitches (same pitch on both channels overlapping in time is "
         "forced in a third of the cases; very short notes 1-3 ticks and abutting notes are biased), ticks unconstrained, "
         "time/key signatures and control/program changes as non-note events, any construction route; step lists of 1-4 "
@@ -19,6 +21,7 @@ RULE = ("Hypothesis: well-formed notes on 2 channels over 3-4 pitches (same pitc
         "survival of isolated notes with the narrowest candidate sets. Non-trivial: >= 3 notes and (a note shorter than "
         "the smallest step, or the same pitch on two channels, or two notes of a key closer than max(step)). Distinct by "
         "case digest.")
+RULE = RULE + RULE_EXTRA
 ASSUMPTIONS = ["inputs respect the library's tie convention (note-off before note-on of the same key on one tick)",
                "the trailing INTERNAL marker (total duration) is not an 'event' of the statement and is not checked"]
 TIERS = {"quick": dict(shards=8, examples=1500, alt_ppqn=[480], alt_shards=2),
@@ -30,7 +33,7 @@ STEP_POOL = [1, 2, 3, 4, 5, 6, 7, 8, 12, 16, 24, 48]
 @st.composite
 def _case(draw, size=1):
     pitches = draw(gens.pitch_pool([(60, 61, 62), (60, 61, 62, 64), (60,), (60, 61)]))
-    notes = draw(gens.wellformed_notes(channels=(0, 1), pitches=pitches, max_notes=10 * size, max_len=60, max_gap=50,
+    notes = draw(gens.wellformed_notes(channels="pool", pitches=pitches, max_notes=10 * size, max_len=60, max_gap=50,
                                        start_max=60))
     if draw(st.integers(0, 2)) == 0 and notes:
         # same pitch on the other channel, overlapping in time with an existing note
@@ -46,12 +49,19 @@ def _case(draw, size=1):
     spec.update(draw(gens.route()))
     end = max([n[3] for n in notes] + [m[1] for m in meta] + [0])
     spec["pad"] = draw(st.one_of(st.none(), st.just(end + draw(st.integers(0, 30)))))
+    gens.far_shift(draw, spec)
     if draw(st.integers(0, 7)) == 0:
         spec["double"] = draw(st.sampled_from(["self", "fresh"]))     # the material twice: one message object, two positions
     steps = draw(st.one_of(
         st.sampled_from([[48], [24], [12], [16], [48, 24], [12, 16], [24, 16], [7], [5, 3], [8, 12], [48, 16], [6, 4]]),
         st.lists(st.sampled_from(STEP_POOL), min_size=1, max_size=4)))
-    return {"seq": spec, "steps": list(steps)}
+    case = {"seq": spec, "steps": list(steps)}
+    if draw(st.integers(0, 4)) == 0:
+        # a history on one object: it was quantised before with another step list (and possibly read); the statement is then
+        # checked for the second call against the state the first one left behind
+        case["pre_steps"] = draw(st.sampled_from([[8], [6], [12], [16], [5], [24, 16], [4]]))
+        case["pre_read"] = draw(st.sampled_from([None, None, "abs", "rel"]))
+    return case
 
 
 def strategy(params, shard, nshards):
@@ -77,6 +87,22 @@ def check(case):
     if built is None:
         return out
     seq, ev0, d0, notes0 = built
+    if case.get("pre_steps"):
+        out.label("quantised-before")
+        try:
+            seq.quantise(list(case["pre_steps"]))
+            if case.get("pre_read") == "rel":
+                _ = seq.rel
+            elif case.get("pre_read") == "abs":
+                _ = seq.abs
+            ev0, d0 = O.seq_events(seq)
+            notes0, an0 = O.notes(ev0)
+        except Exception as e:
+            out.inconclusive = f"first-quantise-raised:{type(e).__name__}"
+            return out
+        if an0 or O.overlaps(notes0):
+            out.inconclusive = "first-quantise-left-ill-formed-content"      # (a violation of the same property, reported by the plain cases)
+            return out
     by_key0 = defaultdict(list)
     for n in notes0:
         by_key0[(n[0], n[1])].append(n)
